@@ -21,6 +21,9 @@ pub struct Case {
     pub schedule: Vec<(u8, u16)>,
 }
 
+/// schedule entry (e, DROP_RESTART): drop evaluator e's iterator and create a fresh instance
+pub const DROP_RESTART: u16 = 0xffff;
+
 pub fn solo(cfg: &Config) -> Result<Seq, Fail> {
     run_seq(cfg, cfg.slots().min(1 << 40) as usize, 2)
 }
@@ -51,8 +54,23 @@ pub fn check(c: &Case) -> CheckResult {
         }
         Ok(())
     };
+    let mut restarts = 0u64;
     for (e, burst) in &c.schedule {
         let i = *e as usize % k;
+        if *burst == DROP_RESTART {
+            // drop this evaluator's iterator in mid-run and start an identically constructed one:
+            // what it yielded so far must be a prefix of its solo sequence, the new instance
+            // starts from the beginning again, the others must not notice
+            if got[i].len() > expected[i].len() || got[i][..] != expected[i][..got[i].len()] {
+                return Err(Fail::new("interleaving-differs", format!("evaluator {} of {}: the {} showdowns it yielded before being dropped are not a prefix of its solo sequence", i, k, got[i].len())));
+            }
+            its[i] = c.cfgs[i].evaluator().into_iter();
+            got[i].clear();
+            done[i] = false;
+            restarts += 1;
+            last = None;
+            continue;
+        }
         for _ in 0..*burst {
             if let Some(l) = last {
                 if l != i && !done[l] && !done[i] {
@@ -105,9 +123,12 @@ pub fn check(c: &Case) -> CheckResult {
     if switches_live >= 100 {
         cls |= 8;
     }
+    if restarts > 0 {
+        cls |= 16;
+    }
     Ok(Outcome::new(k >= 2 && switches_live > 0, fp_of(&format!("{:?}", c)), cls))
 }
-pub const CLASSES: &[&str] = &["context_switch_between_live_evaluators", "identical_evaluators", "same_inputs_different_scope", "hundred_plus_switches"];
+pub const CLASSES: &[&str] = &["context_switch_between_live_evaluators", "identical_evaluators", "same_inputs_different_scope", "hundred_plus_switches", "drop_and_restart_mid_run"];
 
 pub fn scoped_cfg() -> impl Strategy<Value = Config> {
     (cfg_strategy(), proptest::option::weighted(0.6, window_strategy())).prop_map(|(mut c, w)| {
@@ -137,7 +158,7 @@ pub fn cfgs_strategy(max: usize) -> impl Strategy<Value = Vec<Config>> {
 }
 
 pub fn strategy() -> impl Strategy<Value = Case> {
-    let burst = prop_oneof![4 => Just(1u16), 2 => 1u16..8, 1 => 1u16..400, 1 => Just(5000u16)];
+    let burst = prop_oneof![8 => Just(1u16), 4 => 1u16..8, 2 => 1u16..400, 2 => Just(5000u16), 1 => Just(DROP_RESTART)];
     (cfgs_strategy(4), proptest::collection::vec((any::<u8>(), burst), 0..300)).prop_map(|(cfgs, schedule)| Case { cfgs, schedule })
 }
 
@@ -214,7 +235,7 @@ pub fn heavy_thread_strategy() -> impl Strategy<Value = ThreadCase> {
 }
 
 pub fn run(ctx: &mut Ctx) {
-    ctx.rule = "in-process: 1-6 live evaluators over small generated configurations (some identical, some differing only by scope), a generated schedule of (evaluator, burst) steps (single steps, short bursts, long bursts, finish-one-then-resume) followed by a round-robin drain; each evaluator's interleaved fingerprint sequence must equal, element by element, the sequence of an identically constructed evaluator iterated alone. Thread part (isolated binary, one process per case): 1-19 evaluators each drained on its own thread behind a barrier, evaluators built on the main thread and moved, ranges shared through Arc, showdowns sent back through a channel, iterators advanced on one thread and handed over to another; 1-3 rounds; stream heavy_thread_rounds: 4-16 evaluators over 6-24-combo two-player ranges on different flops (up to 400k slots each) drained simultaneously. Non-trivial = >= 2 evaluators with >= 1 context switch between two non-exhausted evaluators (threads: >= 2 concurrent evaluators); distinct by case.".into();
+    ctx.rule = "in-process: 1-6 live evaluators over small generated configurations (some identical, some differing only by scope), a generated schedule of (evaluator, burst) steps (single steps, short bursts, long bursts, finish-one-then-resume, dropping an iterator in mid-run and starting an identically constructed one) followed by a round-robin drain; each evaluator's interleaved fingerprint sequence must equal, element by element, the sequence of an identically constructed evaluator iterated alone. Thread part (isolated binary, one process per case): 1-19 evaluators each drained on its own thread behind a barrier, evaluators built on the main thread and moved, ranges shared through Arc, showdowns sent back through a channel, iterators advanced on one thread and handed over to another; 1-3 rounds; stream heavy_thread_rounds: 4-16 evaluators over 6-24-combo two-player ranges on different flops (up to 400k slots each) drained simultaneously. Non-trivial = >= 2 evaluators with >= 1 context switch between two non-exhausted evaluators (threads: >= 2 concurrent evaluators); distinct by case.".into();
     ctx.assumptions = vec![
         "OS thread schedules are only sampled; the deterministic single-thread interleavings are the deciding step for shared state through statics or thread-locals".into(),
         "Send/Sync of FlopExhaustiveEvaluator, its iterator, HandRange, Showdown, HandRangeToken, MadeHand, CardPair is a compile-time by-product of building c15_threads".into(),
@@ -230,6 +251,7 @@ pub fn run(ctx: &mut Ctx) {
     ctx.run_random_brief(StreamCfg::new("interleavings", CLASSES, cases).shrink(300), strategy, check, |c| json!({"evaluators": c.cfgs.iter().map(|c| c.brief()).collect::<Vec<_>>(), "schedule_head": c.schedule.iter().take(12).collect::<Vec<_>>(), "schedule_len": c.schedule.len()}));
     ctx.require_class("interleavings", "context_switch_between_live_evaluators", cases / 3);
     ctx.require_class("interleavings", "identical_evaluators", cases / 10);
+    ctx.require_class("interleavings", "drop_and_restart_mid_run", cases / 4);
     ctx.require_class("interleavings", "same_inputs_different_scope", cases / 20);
     if std::env::var("C15_COMPILE_FAIL").is_err() {
         if !std::path::Path::new(&threads_bin()).exists() {
